@@ -68,9 +68,14 @@ def run():
         return chk
     _structural(chk)
     _fixed_points(chk)
+    # recorded histories of two identical sessions of programs beyond the bounds, validated against ISCore
+    from .. import trace_core
+    trace_core.validate(chk, 3000 if chk.quick else 40000, second=1.0)
     chk.assumptions += ["deterministic tests; leaf values from the core pools (representation fixed points of richer "
                         "values are exercised by C01/C12)"]
     return chk.finish(
         rule="TLC enumerates histories <<F, F>> for all 16 approved sets and <<all four, none>> over the per-site "
              "model; each history is replayed as chained real runs (run 2 starts from the bytes run 1 wrote); every "
-             "history counts as non-trivial (it has at least the second-run no-op clause)")
+             "history counts as non-trivial (it has at least the second-run no-op clause); recorded executions of "
+             "larger random programs are run twice with the same approved set, both sessions are validated by TLC against "
+             "ISCore (spec/TraceCore.tla), the second starting from the sources observed after the first")
